@@ -458,6 +458,59 @@ theorem history_mirrors_every_field (strOf : Nat → Except Err Str) (h : List (
     | exact toJson_get _ strOf hsort _ _ _ j' hj rfl
     | (intro e he; exact ⟨(hx2 e he).2.1, (hx2 e he).2.2⟩)
 
+/-! ### several serialising handlers sharing one record -/
+
+/-- NO STATE ACROSS HANDLERS: when one logging call is dispatched to any number of serialize=True handlers
+whose filters, format functions and sinks edit the shared record, the i-th handler's result is
+`_serialize_record` of the text ITS format produced and of the record AS IT saw it – not a snapshot taken
+for an earlier handler -/
+theorem dispatch_pointwise (strOf : Nat → Except Err Str) :
+    ∀ (hs : List HandlerSpec) (r : Record) (i : Nat),
+      (dispatch strOf hs r)[i]? =
+        (match hs[i]?, seenBy hs r i with
+         | some h, some ri => some (serializeRecord strOf (h.fmt ri) ri)
+         | _, _ => none)
+  | [], r, i => by simp [dispatch, seenBy]
+  | h :: t, r, 0 => by
+    have hpure : Gen.serializeIsPure = true := rfl
+    simp [dispatch, seenBy, hpure, (emit_serializes_formatted strOf _ _).1]
+  | h :: t, r, i + 1 => by
+    have hpure : Gen.serializeIsPure = true := rfl
+    simp only [dispatch, hpure, if_true, List.getElem?_cons_succ, seenBy]
+    exact dispatch_pointwise strOf t _ i
+
+/-- … hence each handler's line mirrors the record as THAT handler saw it: its extra (at every key path),
+its message, and the text is what its own format produced from that state -/
+theorem each_handler_mirrors_its_own_view (strOf : Nat → Except Err Str) (hs : List HandlerSpec) (r : Record)
+    (i : Nat) (h : HandlerSpec) (ri : Record) (s : Str)
+    (hh : hs[i]? = some h) (hr : seenBy hs r i = some ri) (hs' : (dispatch strOf hs r)[i]? = some (.ok s)) :
+    serializeRecord strOf (h.fmt ri) ri = .ok s ∧
+    ∃ j, s = dumps Gen.ensureAscii j ++ ['\n'] ∧
+      j.get [K "text"] = some (.str (h.fmt ri)) ∧
+      Mirrors strOf j [K "record", K "message"] ri.message ∧
+      Mirrors strOf j [K "record", K "extra"] ri.extra ∧
+      Mirrors strOf j [K "record", K "function"] ri.function ∧
+      (∀ p w, ri.extra.get p = some w → Mirrors strOf j (K "record" :: K "extra" :: p) w) := by
+  have hser : serializeRecord strOf (h.fmt ri) ri = .ok s := by
+    have := dispatch_pointwise strOf hs r i
+    rw [hs', hh, hr] at this
+    simpa using this.symm
+  refine ⟨hser, ?_⟩
+  obtain ⟨j, hj, hsj⟩ := serialize_ok strOf _ ri s hser
+  refine ⟨j, hsj, ?_, toJson_get _ strOf hsort _ _ _ j hj rfl, toJson_get _ strOf hsort _ _ _ j hj rfl,
+    toJson_get _ strOf hsort _ _ _ j hj rfl, ?_⟩
+  · obtain ⟨jw, h1, h2⟩ := toJson_get _ strOf hsort [K "text"] _ (.str (h.fmt ri)) j hj rfl
+    simp only [toJson] at h1; cases h1; exact h2
+  · intro p w hw
+    obtain ⟨j', hj', hm⟩ := extra_mirrored_at_every_path strOf _ ri s hser p w hw
+    have hjj : j' = j := by
+      have h1 : dumps Gen.ensureAscii j' = dumps Gen.ensureAscii j := List.append_cancel_right (hj'.symm.trans hsj)
+      have h2 := loads_dumps j'
+      rw [h1, loads_dumps j] at h2
+      exact (Option.some.inj h2).symm
+    rw [hjj] at hm
+    exact hm
+
 /-! ### the `except Exception:` clause of `emit`: when a record can be lost -/
 
 /-- one `emit` call of a serialising handler: on success the sink is handed exactly the line
@@ -633,5 +686,12 @@ example : readLines "{\"a\": 1}\n{\"b\": \"\u2028\"}\n".toList = ["{\"a\": 1}\n"
 example : (emitHistory exStrOk [(K "x\n", exBadRecord), (K "y\n", exRecord)])[1]? =
     some (serializeRecord exStrOk (K "y\n") exRecord) := by
   rw [history_pointwise]; rfl
+
+/-- two handlers, the second one's filter adds a key to the shared extra: its line has the key, the first one's has not -/
+def exSpecs : List HandlerSpec :=
+  [⟨id, fun _ => K "a\n", id⟩,
+   ⟨fun r => { r with extra := .dict (.cons (.str (K "route")) (.str (K "audit")) .nil) }, fun _ => K "b\n", id⟩]
+example : seenBy exSpecs exRecord 1 = some { exRecord with extra := .dict (.cons (.str (K "route")) (.str (K "audit")) .nil) } := rfl
+example : (dispatch exStrOk exSpecs exRecord).length = 2 := rfl
 
 end C14
